@@ -4,6 +4,8 @@
   the storage pointer are observed by the harness (`views` prints `ptr % align`), not modelled.
 -/
 import AnyVecModel.Proofs.Exec
+import AnyVecModel.Proofs.KernelView
+import AnyVecModel.Proofs.KernelStackAlign
 namespace AnyVec
 namespace C12
 open World
@@ -91,6 +93,27 @@ def sampleVec : VecSt :=
   { ty := 0, size := 12, align := 4, hasDrop := true, cloneable := true, bk := .heap, cap := 5,
     cells := [.val 0, .val 1], len := 2, gen := 0, live := true }
 example : sampleVec.asBytes = (0, 24) ∧ sampleVec.spareBytes = (24, 36) ∧ sampleVec.spareCapacity = (24, 3) := by decide
+
+/-- **source tie**: the model's views are the source's, as re-translated on this run from the `from_raw_parts` call at
+the end of each view function: `as_bytes` / `as_bytes_mut` start at the storage pointer and span `len * size` bytes;
+`spare_bytes_mut` starts `len * size` bytes in and spans `(capacity - len) * size` bytes; the typed slice starts at the
+storage pointer with `len` elements; `spare_capacity_mut` starts `len` elements in with `capacity - len` elements. -/
+theorem views_are_the_source (v : VecSt) :
+    v.asBytes = Gen.Kernel.as_bytes_view v.len v.cap v.size ∧
+    v.asBytes = Gen.Kernel.as_bytes_mut_view v.len v.cap v.size ∧
+    v.spareBytes = Gen.Kernel.spare_bytes_mut_view v.len v.cap v.size ∧
+    v.typedSlice = Gen.Kernel.as_slice_view v.len v.cap v.size ∧
+    v.typedSlice = Gen.Kernel.as_mut_slice_view v.len v.cap v.size ∧
+    v.spareCapacity = Gen.Kernel.spare_capacity_mut_view v.len v.cap v.size :=
+  KernelTie.views_tie v
+
+/-- **source tie**: the in-place buffers of `Stack` / `StackN` are declared `repr(align(N))` with `N` (read from
+`/repo/src/mem/stack.rs`, `stack_n.rs` on this run) at least `STACK_MAX_ALIGN` (read from `/repo/src/mem/mod.rs`), the
+largest element alignment their `build` accepts - and that bound is the model's. -/
+theorem stack_alignment_is_the_source :
+    Gen.Kernel.stack_max_align = VecSt.STACK_MAX_ALIGN ∧ Gen.Kernel.stack_max_align ≤ Gen.Kernel.stack_mem_align ∧
+    Gen.Kernel.stack_max_align ≤ Gen.Kernel.stackn_mem_align :=
+  KernelTie.stack_align_tie
 
 end C12
 end AnyVec
